@@ -118,7 +118,10 @@ def g2_g3(F, rep):
                 d = flow.describe(b, st2["d"], names=True)
                 if re.match(r"^(Gt|Ge)\(", d) and ("plain_text" in d or "length" in d or "total_chunk_length" in d):
                     continue
-                if re.match(r"^discr\(", d) or re.match(r"^is_ok\(", d) or d == "Ge(var(index), K4)":
+                # the IDAT look-back test: the 4-byte length field must lie before the signature and (after the D9 fix)
+                # not inside a stream that was already emitted — excluded by the property ("bytes that do not themselves form an
+                # acceptable stream overlapping it")
+                if re.match(r"^discr\(", d) or re.match(r"^is_ok\(", d) or d == "Ge(var(index), K4)" or re.match(r"^Ge\(var\(index\), Add\(var\(prev_index\), K4\)(\.0)?\)$", d):
                     continue
                 if re.match(r"^var\(_\d+\)$", d):   # drop flags
                     continue
